@@ -8,13 +8,10 @@ test -f /opt/veriftools/tla/tla2tools.jar
 mkdir -p evidence/replays
 cd spec
 CP=/opt/veriftools/tla/tla2tools.jar:/opt/veriftools/tla/CommunityModules-deps.jar
-rc=0
-fails=""
-for f in *.tla; do
-  # Trace_* modules read IOEnv.TRACE_FILE at evaluation time only; parsing them is fine too
-  if ! java -cp "$CP" -DTLA-Library=. tla2sany.SANY "$f" >/dev/null 2>&1; then
-    fails="$fails $f"; rc=1
-  fi
-done
-[ -z "$fails" ] || echo "SANY failed on:$fails"
-exit $rc
+# parse every module in one JVM (SANY exits non-zero if any module fails); on failure name the culprits
+if ! java -cp "$CP" -DTLA-Library=. tla2sany.SANY *.tla >/dev/null 2>&1; then
+  fails=$(ls *.tla | xargs -P 8 -I{} sh -c 'java -cp "'"$CP"'" -DTLA-Library=. tla2sany.SANY "{}" >/dev/null 2>&1 || echo "{}"' | tr '\n' ' ')
+  echo "SANY failed on: $fails"
+  exit 1
+fi
+exit 0
